@@ -453,7 +453,7 @@ func (r *Runtime) arrayproto_splice(call FunctionCall) Value {
 		panic(r.NewTypeError("Invalid array length"))
 	}
 	a := arraySpeciesCreate(o, actualDeleteCount)
-	if src := r.checkStdArrayObj(o); src != nil {
+	if src := r.checkStdArrayObj(o); src != nil && int64(len(src.values)) == length && src.extensible && src.lengthProp.writable {
 		if dst := r.checkStdArrayObjWithProto(a); dst != nil {
 			values := make([]Value, actualDeleteCount)
 			copy(values, src.values[actualStart:])
@@ -613,7 +613,7 @@ func (r *Runtime) arrayproto_indexOf(call FunctionCall) Value {
 
 	searchElement := call.Argument(0)
 
-	if arr := r.checkStdArrayObj(o); arr != nil {
+	if arr := r.checkStdArrayObj(o); arr != nil && int64(len(arr.values)) == length {
 		for i, val := range arr.values[n:] {
 			if searchElement.StrictEquals(val) {
 				return intToValue(n + int64(i))
@@ -657,7 +657,7 @@ func (r *Runtime) arrayproto_includes(call FunctionCall) Value {
 		searchElement = _positiveZero
 	}
 
-	if arr := r.checkStdArrayObj(o); arr != nil {
+	if arr := r.checkStdArrayObj(o); arr != nil && int64(len(arr.values)) == length {
 		for _, val := range arr.values[n:] {
 			if val == _negativeZero {
 				val = _positiveZero
@@ -705,7 +705,7 @@ func (r *Runtime) arrayproto_lastIndexOf(call FunctionCall) Value {
 
 	searchElement := call.Argument(0)
 
-	if arr := r.checkStdArrayObj(o); arr != nil {
+	if arr := r.checkStdArrayObj(o); arr != nil && int64(len(arr.values)) == length {
 		vals := arr.values
 		for k := fromIndex; k >= 0; k-- {
 			if v := vals[k]; v != nil && searchElement.StrictEquals(v) {
@@ -1068,7 +1068,7 @@ func (r *Runtime) arrayproto_copyWithin(call FunctionCall) Value {
 	}
 	final := relToIdx(relEnd, l)
 	count := min(final-from, l-to)
-	if arr := r.checkStdArrayObj(o); arr != nil {
+	if arr := r.checkStdArrayObj(o); arr != nil && int64(len(arr.values)) == l {
 		if count > 0 {
 			copy(arr.values[to:to+count], arr.values[from:from+count])
 		}
@@ -1111,7 +1111,7 @@ func (r *Runtime) arrayproto_fill(call FunctionCall) Value {
 	}
 	final := relToIdx(relEnd, l)
 	value := call.Argument(0)
-	if arr := r.checkStdArrayObj(o); arr != nil {
+	if arr := r.checkStdArrayObj(o); arr != nil && int64(len(arr.values)) == l {
 		for ; k < final; k++ {
 			arr.values[k] = value
 		}
